@@ -473,8 +473,8 @@ func (e *Engine) spawn(s *State, f *Frame, fnv Value, method *types.Func, args [
 		}
 		fn, bindings = fv.Fn, fv.Bindings
 	}
-	if len(s.gs) >= 48 {
-		e.errf("more than 48 goroutines")
+	if len(s.gs) >= 512 {
+		e.errf("more than 512 goroutines")
 	}
 	f.ip++
 	// gopool.Go(fn) and friends are redirected here by intrinsics as well
@@ -498,8 +498,8 @@ func (e *Engine) newTimer(s *State, fv *FuncV) *Pointer {
 
 func (e *Engine) armTimer(s *State, obj int, fv *FuncV) {
 	e.usedModels = true
-	if len(s.gs) >= 48 {
-		e.errf("more than 48 goroutines (timers)")
+	if len(s.gs) >= 512 {
+		e.errf("more than 512 goroutines (timers)")
 	}
 	ng := &Goroutine{id: len(s.gs), timerPending: true}
 	ng.frames = []*Frame{e.newFrame(fv.Fn, nil, fv.Bindings, -1)}
